@@ -1,5 +1,6 @@
 import NitroVerif.Model.Hash
 import NitroVerif.Spec.Hash
+import NitroVerif.Generated.HashCombine
 
 /-!
 C16 — hashing agrees with equality, and comparison with the member tuple.
@@ -290,6 +291,30 @@ theorem order_trans (x y z : Val) (hxy : SameShape x y) (hyz : SameShape y z) :
   · intro h1 h2; rw [c1 h1]; exact h2
   · intro h1 h2; rw [c2 h2]; exact h1
   · exact c3
+
+/-- **The model's combiner is the source's combiner.**  `Generated/HashCombine.lean` is rewritten on every run by
+translating the body of `detail::hash_combine_impl<unsigned long>` expression by expression (integer conversions
+made explicit); the seeds of `hash(tuple)` / `hash(variant)` and the shape of `hash(pair)` are read off their
+instantiations.  Every theorem above about `combine`, `hashV`, `hashFrom` is therefore a theorem about the
+arithmetic that is in the header now: changing a constant, a shift, an operator or a seed breaks this
+obligation. -/
+theorem model_combiner_is_source :
+    Generated.hashExtracted = true ∧ Generated.pairShapeSrc = true ∧
+    (∀ seed value, combine seed value = Generated.combineSrc seed value) ∧
+    hashV .unit = Generated.tupleSeedSrc ∧
+    (∀ x t, hashV (.cons x t) = hashFrom (combine Generated.tupleSeedSrc (hashV x)) t) ∧
+    (∀ x, hashV (.var x) = combine Generated.variantSeedSrc (hashV x)) ∧
+    (∀ a b, hashV (.pair a b) = Generated.combineSrc (hashV a) (hashV b)) := by
+  refine ⟨rfl, rfl, fun _ _ => rfl, rfl, fun _ _ => ?_, fun _ => ?_, fun _ _ => ?_⟩
+  · simp [hashV, Generated.tupleSeedSrc]
+  · simp [hashV, Generated.variantSeedSrc]
+  · simp [hashV, combine, Generated.combineSrc]
+
+/-- The injectivity theorem restated for the translated source expression. -/
+theorem source_combiner_injective_in_value (seed v w : BitVec 64)
+    (h : Generated.combineSrc seed v = Generated.combineSrc seed w) : v = w := by
+  rw [← model_combiner_is_source.2.2.1, ← model_combiner_is_source.2.2.1] at h
+  exact combine_inj seed v w h
 
 /-! Non-vacuity: a nested value of a mix-in type with a nested mix-in member. -/
 example : SameShape (.cons (.cons (.leaf 1 1#64) (.cons (.leaf 5 9#64) .unit)) (.cons (.leaf 2 2#64) .unit))
